@@ -264,7 +264,7 @@ def run_check(spec, tier, seed, replay=None):
             if key.startswith("safety:"):
                 return ioc == key.split(":")[1]
             return ioc == "ok" and any(k == key for k, _, _ in safe_oracle(part, c, io))
-        return core.ddmin(h, fails, budget=100 if tier == "quick" else 400, shrink_line=part.shrink_line)
+        return core.ddmin(h, fails, budget=getattr(part, "shrink_budget", None) or (100 if tier == "quick" else 400), shrink_line=part.shrink_line)
 
     done_keys = set()
     for part, name, h, key, what, idx in all_oracle_fail:
